@@ -156,7 +156,7 @@ func registerBigModels(ex *Exec) {
 	m["(*math/big.Int).SetUint64"] = func(ex *Exec, s *State, cc *ssa.CallCommon, a []Value) (Value, *Fork, error) {
 		t := a[1].(*Term)
 		if ex.bigIsInt() {
-			return ex.bigSet(s, a[0], &BigV{T: ex.Ctx.BV2Int(t)})
+			return ex.bigSet(s, a[0], &BigV{T: ex.bvToIntChecked(s, t)})
 		}
 		return ex.bigSet(s, a[0], &BigV{T: ex.Ctx.ZExt(t, ex.bigW()), MaxBits: 64})
 	}
@@ -530,3 +530,56 @@ type lazyBigSet struct {
 }
 
 var _ = types.Typ
+
+// bvToIntChecked converts a machine-word term to an SMT integer. Additions and
+// multiplications are translated structurally (as integer + and *) under the obligation,
+// discharged by the solver under the current path condition, that no intermediate value
+// leaves [0, 2^w); if the obligation fails the conversion falls back to bv2nat of the word.
+func (ex *Exec) bvToIntChecked(s *State, t *Term) *Term {
+	c := ex.Ctx
+	if t.IsConst() {
+		return c.Int(t.BigVal())
+	}
+	memo := map[int]*Term{}
+	var obligations []*Term
+	nodes := 0
+	var tr func(x *Term) *Term
+	tr = func(x *Term) *Term {
+		if r, ok := memo[x.ID]; ok {
+			return r
+		}
+		var r *Term
+		w := x.S.W
+		switch {
+		case x.IsConst():
+			r = c.Int(x.BigVal())
+		case x.Op == OAdd || x.Op == OMul:
+			a, b := tr(x.Args[0]), tr(x.Args[1])
+			if x.Op == OAdd {
+				r = c.IntOp(OIAdd, a, b)
+			} else {
+				r = c.IntOp(OIMul, a, b)
+			}
+			nodes++
+			obligations = append(obligations, c.IntOp(OILt, r, c.Int(pow2(w))))
+		case x.Op == OZExt:
+			r = tr(x.Args[0])
+		case x.Op == OIte:
+			r = c.Ite(x.Args[0], tr(x.Args[1]), tr(x.Args[2]))
+		default:
+			r = c.BV2Int(x)
+		}
+		memo[x.ID] = r
+		return r
+	}
+	r := tr(t)
+	if nodes == 0 {
+		return r
+	}
+	bad := c.BNot(c.BAnd(obligations...))
+	if ex.checkSat(s, bad) == Unsat {
+		ex.IntConversions++
+		return r
+	}
+	return c.BV2Int(t)
+}
